@@ -11,7 +11,7 @@ import (
 
 // C09 — indeterminate storage outcomes are repaired, never mis-reported.
 
-const c09Variants = 40
+const c09Variants = 46
 
 func genC09(r *rt.Rand, tier string, idx int) *world.Scenario {
 	V := c09Variants
@@ -83,6 +83,13 @@ func genC09(r *rt.Rand, tier string, idx int) *world.Scenario {
 		sc.Plan = []*simkv.Fault{
 			{Op: "commit", Class: "data", Who: "client", Nth: first + 1, Effect: kinds[(x/3)%2]},
 			{Op: "commit", Class: "data", Who: "retry.tick", Nth: 1, Effect: rk},
+		}
+	case v >= 40: // a burst: three to five consecutive client commits answered "outcome unknown"
+		sc.Class = "burst-of-unknown-outcomes"
+		x := v - 40
+		first := 1 + x%3
+		for i := 0; i < 3+x/3+r.Intn(2); i++ {
+			sc.Plan = append(sc.Plan, &simkv.Fault{Op: "commit", Class: "data", Who: "client", Nth: first + i, Effect: kinds[r.Intn(2)]})
 		}
 	default: // pairs
 		sc.Class = "two-unknown-outcomes"
